@@ -346,6 +346,75 @@ def run_abandon_case(driver, seed, i, res):
         sim.close()
 
 
+def run_stale_status_case(seed, i, res):
+    """SCI gateway on a busy bus: the status report of a query that stayed unanswered ('DALI NO') comes so late that the
+    driver has given up on it (its send failed loudly) and has already written the next query.  That query is answered on
+    the bus; its caller gets that answer.  (Timings are chosen such that a driver without correlation ids - which the
+    protocol does not offer - can get this right: the answer arrives within the answer timeout counted from the stale
+    report.)"""
+    driver = "sci"
+    r = rng(seed, "C16", "stale-status", i)
+    q0, q1, q2 = (simlib.make_command(r, "query", 0, k, driver) for k in range(3))
+    v1, v2 = 0x40 + r.randrange(64), 0x80 + r.randrange(64)
+    vals = {(len(q1.frame), q1.frame.as_integer): ("ok", v1), (len(q2.frame), q2.frame.as_integer): ("ok", v2)}
+    picker = simlib.Picker(r, overrides={"sci.answer_delay": 0, "sci.confirm_delay": 1, "sci.queue_delay": 0, "serial.chunking": 0})
+    sim = simlib.Sim(driver, picker, answer=lambda w, v, idx, dt: vals.get((w, v)))
+    delta = r.choice([0.003, 0.008, 0.015, 0.022])          # the stale report arrives this long after the next query was written
+    got = {}
+
+    async def main(sim):
+        await sim.connect()
+        d = sim.driver
+        t_out = float(getattr(type(d), "timeout_tx_confirm", 0.1))
+        # status of q0 is due 0.0167 (transmission) + 0.012 after the write; it is delayed so that it lands delta after the
+        # write of q1, which follows the loud failure of q0 at once
+        sim.dev.late_confirms[(len(q0.frame), q0.frame.as_integer)] = t_out + delta - 0.0167 - 0.012
+        try:
+            got["q0"] = ("ok", await d.send(q0))
+        except Exception as e:
+            got["q0"] = ("exc", e)
+        t1 = sim.world.now
+        try:
+            got["q1"] = ("ok", await d.send(q1), t1)
+        except Exception as e:
+            got["q1"] = ("exc", e, t1)
+        await asyncio.sleep(0.3)
+        try:
+            got["q2"] = ("ok", await d.send(q2))
+        except Exception as e:
+            got["q2"] = ("exc", e)
+        await asyncio.sleep(0.3)
+        return True
+    out, stalled = sim.run(main)
+    res.evaluations += 1
+    res.hit("stale_status_runs")
+    wit = {"driver": driver, "seed": seed, "case": i, "stale_status": True, "delta": delta, "commands": [str(q0), str(q1), str(q2)]}
+    try:
+        if simlib.detached(out):
+            res.inconclusive.append("harness detached: " + str(out))
+            return
+        if stalled or out is not True:
+            res.violation(f"C16/{driver}/stale-status/hang-or-crash", f"ended with {'a stall' if stalled else repr(out)}", wit)
+            return
+        if got.get("q0", ("?",))[0] == "ok":
+            res.add("stale_status_premise_not_met")          # the driver waited longer than its documented confirmation timeout
+            return
+        for name, c, v in (("q1", q1, v1), ("q2", q2, v2)):
+            g = got.get(name)
+            if g is None or g[0] == "exc":
+                res.violation(f"C16/{driver}/stale-status/raised", f"send({c}) after a query whose status report came late: "
+                              f"{g and type(g[1]).__name__}", wit)
+                return
+            raw = getattr(g[1], "raw_value", "missing")
+            if type(g[1]) is not c.response or raw is None or raw == "missing" or raw.error or raw.as_integer != v:
+                res.violation(f"C16/{driver}/stale-status/wrong-answer", f"send({c}): the bus answered {v:#04x}, the caller received {raw!r} "
+                              f"(the status report 'no answer' of the previous, abandoned query arrived {delta * 1000:.0f} ms after this "
+                              "query was written)", wit)
+                return
+    finally:
+        sim.close()
+
+
 def run_late_case(driver, seed, i, res):
     """Serial gateways: the answer to one query is reported after the driver has stopped waiting for it.  That query may come
     back as 'no answer'; the commands that follow after a pause - in the same sequence or as separate sends - get their own."""
@@ -799,6 +868,49 @@ def run_atx(seed, res):
             res.hit({"none": "silent_outcomes", "value": "value_outcomes"}[oc])
             if not ok:
                 res.violation(f"C16/atx/wrong-answer/{oc}", f"send({cmd}): hat reported {line!r}, caller received {raw!r}", wit)
+        # one hat, one driver object, many commands: the hat relays what other masters put on the bus (0-3 'H' lines in front
+        # of a reply); what was relayed during earlier commands has nothing to do with later ones
+        import dali.gear.general as gg_s
+        from dali import address as A_s
+        for sess in range(6):
+            state = {"foreign": 0}
+
+            def reply_sess(data, state=state):
+                txt = bytes(data).decode("ascii", "replace").strip()
+                try:
+                    v16 = int(txt[1:5], 16)
+                except ValueError:
+                    return b"N\n"
+                k = r.choice([0, 0, 1, 2, 3])
+                state["foreign"] += k
+                lines_ = [("H%04X\n" % r.getrandbits(16)).encode() for _ in range(k)]
+                ans = ("J%02X\n" % ((v16 >> 9) & 0x3F | 0x80)).encode() if (v16 & 0xFF) in (0x90, 0xA0, 0xA1) else b"N\n"
+                return lines_ + [ans]
+            mod = FakeSerialModule(reply_sess)
+            A.serial = mod
+            A.time.sleep = lambda s: None
+            drv = A.SyncDaliHatDriver(LOG=logging.getLogger("atx-test"))
+            for j in range(40):
+                a = r.randrange(64)
+                c = r.choice([gg_s.QueryStatus, gg_s.QueryActualLevel, gg_s.QueryMaxLevel])(A_s.GearShort(a)) if j % 3 else gg_s.DAPC(A_s.GearShort(a), j)
+                res.evaluations += 1
+                res.hit("atx_session_commands")
+                wit = {"driver": "atxled", "command": str(c), "position_in_session": j, "foreign_lines_relayed_so_far": state["foreign"]}
+                try:
+                    out = drv.send(c)
+                except Exception as e:
+                    res.violation(f"C16/atx/send-raised/{type(e).__name__}", f"command {j} of a session, send({c}) raised {type(e).__name__}: {e}", wit)
+                    break
+                if c.response is None:
+                    if out is not None:
+                        res.violation("C16/atx/answer-for-non-query", f"command {j} of a session: send({c}) returned {out!r}", wit)
+                        break
+                    continue
+                raw = getattr(out, "raw_value", "missing")
+                if type(out) is not c.response or not isinstance(raw, F.BackwardFrame) or raw.error or raw.as_integer != (a | 0x80):
+                    res.violation("C16/atx/wrong-answer/session", f"command {j} of a session on one hat ({state['foreign']} foreign lines relayed "
+                                  f"so far): send({c}) returned {raw!r}, the hat reported J{a | 0x80:02X} for it", wit)
+                    break
         # several threads share one hat driver (it carries a lock for that): each gets the answer to its own command
         import sys as _sys
         import threading
@@ -877,7 +989,9 @@ def run_shard(desc, tier, seed):
     if "replay" in desc:
         for w in desc["replay"]["witnesses"]:
             x = w["witness"]
-            if x.get("late"):
+            if x.get("stale_status"):
+                run_stale_status_case(x["seed"], x["case"], res)
+            elif x.get("late"):
                 run_late_case(x["driver"], x["seed"], x["case"], res)
             elif x.get("twin"):
                 run_twin_case(x["driver"], x["seed"], x["case"], res)
@@ -897,6 +1011,8 @@ def run_shard(desc, tier, seed):
         for i in range(desc["n"]):
             try:
                 run_late_case(desc["driver"], seed, i, res)
+                if desc["driver"] == "sci":
+                    run_stale_status_case(seed, i, res)
             except Exception as e:
                 res.inconclusive.append("harness error (late): " + short_tb(e))
                 break
